@@ -60,6 +60,11 @@ def plan(tier: str, seed: int) -> Plan:
         conds.append(Condition(f"partial:{q}:take={take}", "partial", H, "partial", {"qtext": q, "maxn": 1 if take is None else 0, "take": take}, T * 2, required=False,
                                bounds="match(), or an iterator advanced 0..4 times and abandoned, then full evaluations of the same compiled "
                                       "query on another and on the same document"))
+    for q in [QUERIES[0], QUERIES[1], QUERIES[3], QUERIES[12], QUERIES[15], "$.xs[?count($.xs[?@.a == _.k]) > 0]"] + (QUERIES[4:11] if thorough else []):
+        for route in ("sync", "async"):
+            conds.append(Condition(f"same-doc:{route}:{q}", "same-doc", H, "same_doc", {"qtext": q, "route": route, "maxn": 0 if ("#" in q or "count" in q) else 1}, T * 2, required=False,
+                                   bounds="one compiled query on one document object under two filter contexts and after an in-place edit; "
+                                          f"{route} entry point; 4 Optional[int] leaves/context values"))
     for q in ["$.xs[?@.a == $.k]", "$..[?@.a == $.k]", "$.xs", "$.xs[?count($.xs[?@.a == 1]) > 1 && # > 0]"]:
         conds.append(Condition(f"text-reuse:{q}", "text", H, "text_reuse", {"qtext": q}, T * 2, required=False,
                                bounds="document given as JSON text (leaves from a pool of 3: json.dumps concretises), results edited by the caller, then "
